@@ -15,6 +15,7 @@ import (
 
 	sdkmath "cosmossdk.io/math"
 	sdk "github.com/cosmos/cosmos-sdk/types"
+	stakingtypes "github.com/cosmos/cosmos-sdk/x/staking/types"
 	authtypes "github.com/cosmos/cosmos-sdk/x/auth/types"
 	sdkvesting "github.com/cosmos/cosmos-sdk/x/auth/vesting/types"
 	banktypes "github.com/cosmos/cosmos-sdk/x/bank/types"
@@ -371,6 +372,35 @@ func (d *sdriver) ops(w *world.World, depth int, path []string) []engine.Op {
 				}
 			}
 		}
+	}
+	// any account holding locked coins (the original vesting account, a redeem target) stakes what it
+	// may and then anybody asks for its conversion back to a plain account: while coins are locked the
+	// conversion must be refused, staked or not - otherwise the lockup attached by a redeem is gone
+	for _, a := range d.accts {
+		a := a
+		add(fmt.Sprintf("delegate(%s,all-free)", a.name), func(p []string, res *engine.Result) string {
+			va, ok := w.App.AccountKeeper.GetAccount(w.Ctx(), a.addr).(*vtypes.ClawbackVestingAccount)
+			if !ok {
+				return "skip"
+			}
+			free := w.App.BankKeeper.GetBalance(w.Ctx(), a.addr, world.Denom).Amount.Sub(va.GetVestingCoins(w.Header.Time).AmountOf(world.Denom))
+			if !free.IsPositive() {
+				return "skip"
+			}
+			if _, err := w.RunMsg(w.Ctx(), stakingtypes.NewMsgDelegate(a.addr, w.ValAddr[0], sdk.NewCoin(world.Denom, free))); err != nil {
+				return engine.ErrClass(err)
+			}
+			return "ok"
+		})
+		add(fmt.Sprintf("convertVestingAccount(%s)", a.name), func(p []string, res *engine.Result) string {
+			if _, ok := w.App.AccountKeeper.GetAccount(w.Ctx(), a.addr).(*vtypes.ClawbackVestingAccount); !ok {
+				return "skip"
+			}
+			if _, err := w.RunMsg(w.Ctx(), vtypes.NewMsgConvertVestingAccount(a.addr)); err != nil {
+				return engine.ErrClass(err)
+			}
+			return "ok"
+		})
 	}
 	for _, k := range []int64{4, 5, 6, 15, 20, 26} {
 		k := k
